@@ -30,6 +30,8 @@ REQS = {
     "ovl": [(100, (1, 2)), (200, (2, 3)), (300, (1, 2)), (400, (2, 3))],
     # one group whose id set is built in different insertion orders (8 and 16 share a hash slot, so the two sets
     # iterate differently although they are equal)
+    # a distribution that takes longer than twice the API request timeout (the clock advances 11 s once)
+    "slow": [(100, (1,)), (200, (1,)), (300, (1,))],
     "ord": [(100, (8, 16)), (200, (16, 8)), (300, (8, 16)), (400, (16, 8))],
     "rep2": [(100, (1,)), (200, (1,)), (100, (1,)), (200, (1,)), (100, (1,))],
     "q": [(100, (1,)), (200, (1,)), (300, (2,)), (400, (1,))],
@@ -139,8 +141,12 @@ def make_scenario(cfg: str, instant: bool):
                 viol = []
                 coalesced = False
 
+                advanced = [False]
+
                 def enabled():
                     ev = []
+                    if cfg == "slow" and not advanced[0] and m.active:
+                        ev.append(("advance", 11.0))
                     if sent < len(reqs):
                         ev.append(("req", sent))
                     for j, c in enumerate(m.calls):
@@ -152,6 +158,10 @@ def make_scenario(cfg: str, instant: bool):
                 def fire(e):
                     nonlocal sent, coalesced
                     log.append(e)
+                    if e[0] == "advance":
+                        advanced[0] = True
+                        loop.advance(e[1])
+                        return
                     if e[0] == "req":
                         p, ids = reqs[e[1]]
                         if frozenset(ids) in m.active:
@@ -266,9 +276,9 @@ def run(tier: str, seed: int, workers: int):
 
     acc = Acc()
     plans = (
-        [("q", False, 2), ("q", True, 1), ("q2", False, 1), ("rep", False, 1), ("ovl", False, 1), ("ord", False, 1)]
+        [("q", False, 2), ("q", True, 1), ("q2", False, 1), ("rep", False, 1), ("ovl", False, 1), ("ord", False, 1), ("slow", False, 1)]
         if tier == "quick"
-        else [("t", False, 2), ("q", True, 2), ("q2", True, 1), ("t", True, 1), ("rep", True, 1), ("rep2", False, 1), ("ovl", True, 1), ("ord", False, 2)]
+        else [("t", False, 2), ("q", True, 2), ("q2", True, 1), ("t", True, 1), ("rep", True, 1), ("rep2", False, 1), ("ovl", True, 1), ("ord", False, 2), ("slow", False, 2)]
     )
     bounds = {}
     for cfg, instant, bound in plans:
